@@ -645,46 +645,51 @@ structure AddArgs where
   name : Option Str := none
   overwrite : Bool := false
 
+/-- first half of `RadiRouter._add`: `route_ = self._match(route.pattern, route.filters)`; the
+route found, or a new `Route` stored in the tree and in `routes` -/
+def Router.findOrInsert (R : Router) (rule : Str) (p : Parsed) : Router × Except ErrName Nat :=
+  match R.matchPat p.syms with
+  | some id => (R, .ok id)
+  | none =>
+    match treeAdd R.tree p.syms R.objs.length p.params with
+    | .error e => (R, .error e.name)
+    | .ok t =>
+      ({ R with tree := t,
+                objs := R.objs ++ [{ rule := rule, syms := p.syms, params := p.params, symsOut := p.symsOut }],
+                routes := dictSet R.routes (patStr p.syms) R.objs.length }, .ok R.objs.length)
+
+/-- the name part of `_add` (after the methods were stored) -/
+def Router.registerName (R : Router) (a : AddArgs) (id : Nat) : Router × Except ErrName Nat :=
+  match a.name with
+  | none => (R, .ok id)
+  | some nm =>
+    if nm.isEmpty then (R, .ok id) else
+    match dictGet R.named nm with
+    | some reg =>
+      if !a.overwrite && reg != id then (R, .error "RouteBuildError")
+      else ({ R with named := dictSet R.named nm id }, .ok id)
+    | none => ({ R with named := dictSet R.named nm id }, .ok id)
+
+/-- second half of `_add`: `set_method` / `add_method` on the route, then the name -/
+def Router.register (R : Router) (a : AddArgs) (p : Parsed) (id : Nat) : Router × Except ErrName Nat :=
+  match R.obj? id with
+  | none => (R, .error "fault")
+  | some route =>
+    if a.overwrite then (R.setObj id (route.setMethods a.methods a.handler p.params)).registerName a id
+    else
+      match route.addMethod a.methods a.handler p.params with
+      | .error e => (R, .error e.name)
+      | .ok route' => (R.setObj id route').registerName a id
+
 /-- `RadiRouter._add` after the rule was parsed; methods already upper-cased.  Returns the new
 state together with the outcome, because a rejected `add` can leave effects behind (name clash
 is detected after the methods were stored). -/
 def Router.addParsed (R : Router) (a : AddArgs) (p : Parsed) : Router × Except ErrName Nat :=
   -- `RadiRouter._match`: `if route_pattern: assert route_pattern[0] != '/'`
   if p.syms.head? == some (.lit '/') then (R, .error "AssertionError") else
-  -- route_ = self._match(route.pattern, route.filters)
-  let found : Router × Except ErrName Nat :=
-    match R.matchPat p.syms with
-    | some id => (R, .ok id)
-    | none =>
-      let id := R.objs.length
-      match treeAdd R.tree p.syms id p.params with
-      | .error e => (R, .error e.name)
-      | .ok t =>
-        let route : Route := { rule := a.rule, syms := p.syms, params := p.params, symsOut := p.symsOut }
-        ({ R with tree := t, objs := R.objs ++ [route],
-                  routes := dictSet R.routes (patStr p.syms) id }, .ok id)
-  match found with
-  | (R, .error e) => (R, .error e)
-  | (R, .ok id) =>
-    match R.obj? id with
-    | none => (R, .error "fault")
-    | some route =>
-      let r' : Except Err Route :=
-        if a.overwrite then pure (route.setMethods a.methods a.handler p.params)
-        else route.addMethod a.methods a.handler p.params
-      match r' with
-      | .error e => (R, .error e.name)
-      | .ok route' =>
-        let R := R.setObj id route'
-        match a.name with
-        | none => (R, .ok id)
-        | some nm =>
-          if nm.isEmpty then (R, .ok id) else
-          match dictGet R.named nm with
-          | some reg =>
-            if !a.overwrite && reg != id then (R, .error "RouteBuildError")
-            else ({ R with named := dictSet R.named nm id }, .ok id)
-          | none => ({ R with named := dictSet R.named nm id }, .ok id)
+  match R.findOrInsert a.rule p with
+  | (R', .error e) => (R', .error e)
+  | (R', .ok id) => R'.register a p id
 
 /-- `RadiRouter.add(rule, methods, handler, name, overwrite=…)`; `upper` is `str.upper` -/
 def Router.add (upper : Str → Str) (cenv : CompileEnv) (R : Router) (a : AddArgs) :
@@ -693,6 +698,24 @@ def Router.add (upper : Str → Str) (cenv : CompileEnv) (R : Router) (a : AddAr
   match parseRule cenv a.rule with
   | .error e => (R, .error e)
   | .ok p => R.addParsed a p
+
+/-- `route.remove_method(methods)` on the route object `id` (`RouteMethod.remove`) -/
+def Router.removeMethod (R : Router) (id : Nat) (methods : List Str) : Router :=
+  match R.obj? id with
+  | some r => R.setObj id (r.removeMethod methods)
+  | none => R
+
+/-- the operations of a registration history (what the driver plays between lookups) -/
+inductive Op
+  | add (cenv : CompileEnv) (a : AddArgs)
+  | removeMethod (id : Nat) (methods : List Str)
+
+def Router.step (upper : Str → Str) (R : Router) : Op → Router
+  | .add cenv a => (R.add upper cenv a).1
+  | .removeMethod id ms => R.removeMethod id ms
+
+/-- the router after a history, starting from `RadiRouter()` -/
+def Router.run (upper : Str → Str) (ops : List Op) : Router := ops.foldl (Router.step upper) {}
 
 /-- `str.strip('/')` -/
 def stripSlash (s : Str) : Str := stripBy (· == '/') s
